@@ -4,6 +4,7 @@ Driver glue for the `phyrx` engine and the executable oracle of C16.
 import ProfiVerif.Driver.Codec
 import ProfiVerif.Model.PhyRx
 import ProfiVerif.Model.TelegramSpec
+import ProfiVerif.Model.Simulator
 
 namespace PV.Driver
 open PV
@@ -18,27 +19,44 @@ def showRx (r : RxResult) : Bytes × String :=
   | .panic => ([], "panic")
   | .hang => ([], "hang")
 
-/-- Model state of the `phyrx` engine: the PHY's receive buffer. -/
-def stepPhyRx (buf : Bytes) (line : String) : Bytes × String :=
+/-- Model state of the `phyrx` engine: the PHY's receive buffer and, for the `sim.*` ops, the simulator bus with
+the receiver's cursor (bytes already handed to the receive buffer). -/
+structure PhyRxState where
+  buf : Bytes := []
+  bus : Sim.Bus := {}
+  cursor : Nat := 0
+
+def stepPhyRx (st : PhyRxState) (line : String) : PhyRxState × String :=
+  let onBuf (r : Bytes × String) : PhyRxState × String := ({ st with buf := r.1 }, r.2)
   match splitWords line with
-  | ["rx.new", _] => ([], "ok")
-  | ["sim.new", _] => ([], "ok")
+  | ["rx.new", _] => ({}, "ok")
+  | ["sim.new", m] =>
+    let rate := ((m.splitOn "@").getD 1 "500000").toNat!
+    ({ bus := { rate := rate } }, "ok")
   | ["rx.arrive", h] =>
     match hexToBytes h with
-    | some c => (buf ++ c, s!"pending {(buf ++ c).length}")
-    | none => (buf, "bad-op")
-  | ["sim.adv", _, h] =>
+    | some c => ({ st with buf := st.buf ++ c }, s!"pending {(st.buf ++ c).length}")
+    | none => (st, "bad-op")
+  | ["sim.adv", us, _] =>
+    -- the op's third word (the chunk the generator expects) is NOT used: the model computes the visible bytes itself
+    match us.toNat? with
+    | some us =>
+      let bus := st.bus.advance us
+      let fresh := (bus.visible.drop st.cursor)
+      let buf := st.buf ++ fresh
+      ({ buf := buf, bus := bus, cursor := bus.cursor }, s!"pending {buf.length}")
+    | none => (st, "bad-op")
+  | ["sim.send", h] =>
     match hexToBytes h with
-    | some c => (buf ++ c, s!"pending {(buf ++ c).length}")
-    | none => (buf, "bad-op")
-  | ["sim.send", _] => (buf, "ok")
-  | ["rx.all"] => showRx (receiveAll buf)
-  | ["sim.all"] => showRx (receiveAll buf)
-  | ["rx.one"] => showRx (receiveTelegram buf)
-  | ["sim.one"] => showRx (receiveTelegram buf)
-  | ["rx.end"] => (buf, "end")
-  | ["sim.end"] => (buf, "end")
-  | _ => (buf, "bad-op")
+    | some t => ({ st with bus := st.bus.send t }, "ok")
+    | none => (st, "bad-op")
+  | ["rx.all"] => onBuf (showRx (receiveAll st.buf))
+  | ["sim.all"] => onBuf (showRx (receiveAll st.buf))
+  | ["rx.one"] => onBuf (showRx (receiveTelegram st.buf))
+  | ["sim.one"] => onBuf (showRx (receiveTelegram st.buf))
+  | ["rx.end"] => (st, "end")
+  | ["sim.end"] => (st, "end")
+  | _ => (st, "bad-op")
 
 /-! ### Oracle C16 -/
 
